@@ -216,13 +216,13 @@ Proof.
       * destruct C as [R [I' [S D]]]. apply keep_post_trace.
         apply (keep_post_step st al st' al'); auto.
       * destruct (true && negb o); [exact C|]. apply keep_post_trace.
-        apply (keep_post_step st al (with_env st' (s_env st)) al'); cbn [with_env s_env]; auto.
+        apply (keep_post_step st al st al'); auto.
         -- apply retains_refl.
-        -- apply IH; cbn [with_env s_env]; auto. exact (insync_stable _ _ _ HI C).
+        -- apply IH; auto. exact (insync_stable _ _ _ HI C).
       * destruct (true && negb o); [exact C|]. apply keep_post_trace.
-        apply (keep_post_step st al (with_env st' (s_env st)) al'); cbn [with_env s_env]; auto.
+        apply (keep_post_step st al st al'); auto.
         -- apply retains_refl.
-        -- apply IH; cbn [with_env s_env]; auto. exact (insync_stable _ _ _ HI C).
+        -- apply IH; auto. exact (insync_stable _ _ _ HI C).
     + destruct (exec_simple true (APath ap var v d) st) as [st'|] eqn:E; [|apply stable_refl].
       destruct (simple_records name p true _ st st' Hp Ha ltac:(discriminate) Hnd E) as [F D].
       apply (keep_post_step st al st' al); [intros n q R; unfold recorded; now rewrite F|apply stable_refl|].
